@@ -316,7 +316,13 @@ func c15StartTLSThenStop(c *Ctx, pki *PKI, round int) {
 // upgrade happens and writes its response afterwards; nothing else is written in between (another response would
 // order the two through the writer lock).
 func c15InflightAcrossStartTLS(c *Ctx, pki *PKI, round int) {
-	srv, err := startSrv(SrvCfg{}, func(m *gldap.Mux) {
+	cfg := SrvCfg{}
+	if round%2 == 1 {
+		// with read and write timeouts configured (whatever the server does about them per response or per request
+		// happens next to the upgrade, too)
+		cfg = SrvCfg{WriteTimeout: 20 * time.Second, ReadTimeout: 20 * time.Second}
+	}
+	srv, err := startSrv(cfg, func(m *gldap.Mux) {
 		m.Delete(func(w *gldap.ResponseWriter, r *gldap.Request) {
 			time.Sleep(time.Duration(60+20*round) * time.Millisecond)
 			w.Write(r.NewResponse(gldap.WithApplicationCode(gldap.ApplicationDelResponse), gldap.WithResponseCode(0)))
